@@ -257,3 +257,10 @@ Qed.
 
 Print Assumptions rep_mat_blockdiag.
 Print Assumptions rep_mat_acts.
+
+(** vertical / diagonal stacks, forward and adjoint matrices: (kind, tolerance, blocks with their column counts,
+    total columns, matrix of the stack, matrix of its adjoint) *)
+Definition stack_case_ok2 (c : nat * option Q * list (nat * cmat) * nat * cmat * cmat) : bool :=
+  let '(kind, tol, Ms, total, R, Radj) := c in
+  let M := match kind with 0%nat => vstack (map snd Ms) | _ => blockdiag Ms 0 total end in
+  cmat_cmp tol M R && cmat_cmp tol (c_mH total M) Radj.
